@@ -10,9 +10,12 @@ import (
 	"fmt"
 	"math/rand"
 	"os"
+	"os/exec"
 	"path/filepath"
+	"runtime/debug"
 	"strconv"
 	"strings"
+	"sync"
 )
 
 func main() {
@@ -23,6 +26,8 @@ func main() {
 	switch os.Args[1] {
 	case "gen":
 		genMain(os.Args[2:])
+	case "one":
+		oneMain(os.Args[2:])
 	case "replay":
 		replayMain(os.Args[2:])
 	case "masks":
@@ -45,41 +50,90 @@ func genMain(args []string) {
 	os.MkdirAll(*outdir, 0o755)
 	master := rand.New(rand.NewSource(*seed))
 	agg := map[string]int{}
-	totalOps, totalPanics := 0, 0
-	for i := 0; i < *count; i++ {
-		hs := master.Int63()
-		name := filepath.Join(*outdir, fmt.Sprintf("h%05d.trace", i))
-		f, err := os.Create(name)
-		if err != nil {
-			panic(err)
-		}
-		out := bufio.NewWriter(f)
-		g := newG(hs, *prof, out)
-		lo, hi := g.p.length[0], g.p.length[1]
-		if *minlen > 0 {
-			lo = *minlen
-		}
-		if *maxlen > 0 {
-			hi = *maxlen
-		}
-		n := lo
-		if hi > lo {
-			n += g.rng.Intn(hi - lo)
-		}
-		fmt.Fprintf(out, "# profile %s seed %d history %d hseed %d\n", *prof, *seed, i, hs)
-		g.history(0, n)
-		out.Flush()
-		f.Close()
-		for k, v := range g.stats {
-			agg[k] += v
-		}
-		totalOps += g.nops
-		totalPanics += g.npanic
+	// every history runs in its own process: a fault in the implementation (memory
+	// corruption after a broken index fix-up, say) must not take the other histories down
+	type job struct {
+		i  int
+		hs int64
 	}
-	agg["_ops"] = totalOps
-	agg["_panics"] = totalPanics
+	jobs := make(chan job)
+	var mu sync.Mutex
+	var wg sync.WaitGroup
+	for w := 0; w < 12; w++ {
+		wg.Add(1)
+		go func() {
+			defer wg.Done()
+			for j := range jobs {
+				name := filepath.Join(*outdir, fmt.Sprintf("h%05d.trace", j.i))
+				cmd := exec.Command(os.Args[0], "one", "-hseed", strconv.FormatInt(j.hs, 10), "-profile", *prof,
+					"-minlen", strconv.Itoa(*minlen), "-maxlen", strconv.Itoa(*maxlen), "-out", name,
+					"-tag", fmt.Sprintf("seed %d history %d", *seed, j.i))
+				errOut, err := cmd.CombinedOutput()
+				if err != nil {
+					// the child died: keep the partial trace and mark the crash
+					f, _ := os.OpenFile(name, os.O_APPEND|os.O_WRONLY|os.O_CREATE, 0o644)
+					msg := strings.SplitN(string(errOut), "\n", 4)
+					fmt.Fprintf(f, "CRASH %s\n", strings.Join(msg[:min(3, len(msg))], " | "))
+					f.Close()
+				}
+				if b, err := os.ReadFile(name + ".stats"); err == nil {
+					st := map[string]int{}
+					json.Unmarshal(b, &st)
+					mu.Lock()
+					for k, v := range st {
+						agg[k] += v
+					}
+					mu.Unlock()
+					os.Remove(name + ".stats")
+				}
+			}
+		}()
+	}
+	for i := 0; i < *count; i++ {
+		jobs <- job{i, master.Int63()}
+	}
+	close(jobs)
+	wg.Wait()
 	b, _ := json.Marshal(agg)
 	os.WriteFile(filepath.Join(*outdir, "stats.json"), b, 0o644)
+}
+
+func oneMain(args []string) {
+	fs := flag.NewFlagSet("one", flag.ExitOnError)
+	hs := fs.Int64("hseed", 1, "")
+	prof := fs.String("profile", "mixed", "")
+	minlen := fs.Int("minlen", 0, "")
+	maxlen := fs.Int("maxlen", 0, "")
+	name := fs.String("out", "h.trace", "")
+	tag := fs.String("tag", "", "")
+	fs.Parse(args)
+	debug.SetPanicOnFault(true)
+	f, err := os.Create(*name)
+	if err != nil {
+		panic(err)
+	}
+	out := bufio.NewWriterSize(f, 1<<16)
+	g := newG(*hs, *prof, out)
+	g.flushEach = true
+	lo, hi := g.p.length[0], g.p.length[1]
+	if *minlen > 0 {
+		lo = *minlen
+	}
+	if *maxlen > 0 {
+		hi = *maxlen
+	}
+	n := lo
+	if hi > lo {
+		n += g.rng.Intn(hi - lo)
+	}
+	fmt.Fprintf(out, "# profile %s %s hseed %d\n", *prof, *tag, *hs)
+	g.history(0, n)
+	out.Flush()
+	f.Close()
+	g.stats["_ops"] = g.nops
+	g.stats["_panics"] = g.npanic
+	b, _ := json.Marshal(g.stats)
+	os.WriteFile(*name+".stats", b, 0o644)
 }
 
 // replay: execute the OP lines of a file against the implementation.
@@ -89,6 +143,7 @@ func replayMain(args []string) {
 		panic(err)
 	}
 	defer f.Close()
+	debug.SetPanicOnFault(true)
 	h := newH()
 	sc := bufio.NewScanner(f)
 	sc.Buffer(make([]byte, 1<<20), 1<<24)
